@@ -619,7 +619,12 @@ def _exclusive_leaf_pairs(s, scope, same_shape):
                 if f1.args or not _is_leaf(s, f1.type):
                     continue
                 for f2 in t2.fields:
-                    if f2.args or not _is_leaf(s, f2.type) or f1.name == f2.name:
+                    if f2.args or not _is_leaf(s, f2.type):
+                        continue
+                    if f1.name == f2.name:
+                        # homonyms: the same field name with another leaf type (weighted up)
+                        if not same_shape and S.unwrap(f1.type) != S.unwrap(f2.type):
+                            out.extend([(t1, f1, t2, f2)] * 5)
                         continue
                     if same_shape and f1.type == f2.type:
                         out.append((t1, f1, t2, f2))
@@ -642,8 +647,9 @@ def different_shapes_on_exclusive_types(rng, doc, s):
         return None
     sels, pairs = rng.choice(cands)
     t1, f1, t2, f2 = rng.choice(pairs)
-    a = [opgen.OField(f1.name, t1.name, "shape")]
-    b = [opgen.OField(f2.name, t2.name, "shape")]
+    alias = None if f1.name == f2.name and rng.random() < 0.7 else "shape"
+    a = [opgen.OField(f1.name, t1.name, alias)]
+    b = [opgen.OField(f2.name, t2.name, alias)]
     if rng.random() < 0.5:
         a = [opgen.OInline(None, a)]
     if rng.random() < 0.3:
